@@ -436,6 +436,8 @@ class SSETransport(Transport):
 
             if message_id is not None:
                 # Request - setup for response handling
+                # (the pending table is keyed by str; synthesised errors keep the request's own id)
+                request_id = message_id
                 message_id = str(message_id)
                 future: asyncio.Future[Dict[str, Any]] = asyncio.Future()
                 async with self._message_lock:
@@ -485,7 +487,7 @@ class SSETransport(Transport):
                             # Send timeout error
                             error_response = {
                                 "jsonrpc": "2.0",
-                                "id": message_id,
+                                "id": request_id,
                                 "error": {"code": -32000, "message": "Request timeout"},
                             }
                             await self._route_incoming_message(error_response)
@@ -504,7 +506,7 @@ class SSETransport(Transport):
                             # Send error response
                             error_response = {
                                 "jsonrpc": "2.0",
-                                "id": message_id,
+                                "id": request_id,
                                 "error": {
                                     "code": -32603,
                                     "message": f"HTTP {response.status_code}: {response.text[:100]}",
@@ -517,7 +519,7 @@ class SSETransport(Transport):
                     # Send error response
                     error_response = {
                         "jsonrpc": "2.0",
-                        "id": message_id,
+                        "id": request_id,
                         "error": {"code": -32603, "message": str(e)},
                     }
                     await self._route_incoming_message(error_response)
